@@ -62,8 +62,8 @@ POOL = {
     3: [tup(b"a", b"b", b"c"), tup(b"a\xff", b"", b"b"), tup(b"a", b"\xff", b"b"), tup(b"a", b"", b"\xffb"), tup(b"", b"", b""),
         tup(b"ab", b"", b"c")],
 }
-CDELTAS = [0, 1, 1, 1, 2, 5, 7, 1 << 53, (1 << 53) - 1, 1 << 63, T64 - 1, 1000]
-GDELTAS = [-5, -1, 0, 1, 1, 2, 3, 10, 1 << 40, -(1 << 40)]
+CDELTAS = [0, 1, 1, "01", 2, 5, 7, 1 << 53, (1 << 53) - 1, 1 << 63, T64 - 1, 1000]     # "1" = Inc(), "01" = Add(1)
+GDELTAS = [-5, -1, -1, "-01", 0, 1, 1, "01", 2, 3, 10, 1 << 40, -(1 << 40)]   # 1 = Inc, -1 = Dec, -n = Sub(n), 01/-01 = Add
 HVALS = [-1, 0, 1, 2, 5, 6, 10, 11, 100]
 
 
@@ -92,10 +92,10 @@ def gen_seq(rng, long=False):
         elif r < 0.50:
             k = rng.randrange(nslots) if nslots and rng.random() > 0.03 else nslots + 1
             code = "S" if kind == "g" and rng.random() < 0.4 else "e"
-            ops.append("%s:%d:%d" % (code, k, d))
+            ops.append("%s:%d:%s" % (code, k, d))
         elif r < 0.64:
             code = "A" if kind == "g" and rng.random() < 0.4 else "a"
-            ops.append("%s:%s:%d" % (code, t, d))
+            ops.append("%s:%s:%s" % (code, t, d))
         elif r < 0.76:
             ops.append("u:" + t)
         elif r < 0.86:
@@ -143,6 +143,7 @@ SCENARIOS = [
     ("adjacent-tuples-last-slot", "c", 1, 2, "-", ["r:6162,63/e:0:1", "r:61,6263/e:0:1", "a:6162,63:2"]),
     ("colliding-tuples-last-slot", "h", 1, 2, "-", ["r:%s/e:0:1" % X1, "r:%s/e:0:1" % X2, "a:%s:1" % X2]),
     ("gauge-set-by-tuple", "g", 2, 1, "r:%s" % A, ["A:%s:7" % A, "e:0:1", "A:%s:9/a:%s:2" % (A, A)]),
+    ("gauge-inc-dec-sub-at-cap-and-stale", "g", 1, 1, "r:%s" % A, ["e:0:1/e:0:-1", "u:%s" % A, "r:%s/e:1:-1/e:1:-3" % B]),
     ("unbounded-creators", "c", -1, 1, "-", ["r:%s/e:0:1" % A, "r:%s/e:0:1" % B, "r:%s/e:0:1" % A]),
 ]
 
@@ -194,6 +195,11 @@ REG_SCENARIOS = [
     ("reregistration-vs-emission", 2, 1, ["a@c@1@r:%s/e:0:1" % A, "a@c@1@r:%s/e:0:2" % A, "a@c@1@a:%s:4" % A]),
     ("hist-first-registration", 1, 0, ["a@h@1@r:%s/e:0:1" % A, "a@h@1@r:%s/e:0:1" % B, "a@h@1@r:%s/e:0:1" % A]),
     ("gauge-first-registration", 2, 0, ["a@g@1@r:%s" % A, "a@g@1@r:%s" % A, "b@g@1@r:%s" % B]),
+    # label schema is positional: permuted / subset / superset / duplicate label-name lists must be refused
+    ("schema-permuted", 3, 0, ["a@c@L0.1@r:%s/e:0:1" % X1, "a@c@L1.0@r:%s/e:0:1" % X1, "a@c@L0.1@r:%s/e:0:2" % X2]),
+    ("schema-permuted-reregistration", 3, 1, ["a@c@L0.1@r:%s/e:0:1" % X1, "a@c@L1.0@r:%s/e:0:1" % X1, "a@g@L1.0@-"]),
+    ("schema-subset-superset", 3, 1, ["a@h@L0.1@r:%s/e:0:1" % X1, "a@h@L0@r:%s/e:0:1" % A, "a@h@L0.1.2@-"]),
+    ("schema-duplicate-names", 3, 0, ["a@g@L0.0@r:%s" % X1, "a@g@L0.1@r:%s/e:0:1" % X1, "a@g@L1.1@-"]),
 ]
 
 
@@ -208,7 +214,7 @@ def gen_reg_random(rng, rounds, race=False):
     for i in range(n):
         name = rng.choice("aab")
         kind = rng.choice("cccch" if rng.random() < 0.8 else "cg")
-        nl = 1 if rng.random() < 0.85 else 2
+        nl = 1 if rng.random() < 0.8 else 2
         pool = [A, B] if nl == 1 else [X1, X2]
         k = min(rng.randint(0, 2), max(0, budget - (n - i - 1)))
         budget -= k
@@ -225,7 +231,8 @@ def gen_reg_random(rng, rounds, race=False):
                 ops.append("a:%s:%d" % (t, 1 if kind == "h" else rng.choice([1, 3])))
             else:
                 ops.append("u:" + t)
-        ths.append("%s@%s@%d@%s" % (name, kind, nl, "/".join(ops) or "-"))
+        spec = str(nl) if nl == 1 or rng.random() < 0.5 else rng.choice(["L1.0", "L0.1", "L0.0", "L1.2"])
+        ths.append("%s@%s@%s@%s" % (name, kind, spec, "/".join(ops) or "-"))
     return reg_line(rng.choice([1, 2, 2, -1]), rounds, rng.choice([0, 0, 1]), rng.choice([0, 0, 0, 1]), ths, race)
 
 
@@ -381,6 +388,17 @@ def classify(case, impl, model):
     if not bad:
         return "G", "concurrent case: model driver said %r" % model[:200]
     cap = cap_of(case)
+    if case.startswith(("reg", "rreg")):
+        ths = [x.split("@") for x in case.split()[5:]]
+        for o in bad:
+            okd = set(int(i) for i in re.findall(r"T(\d+)=ok", o))
+            specs = {}
+            for i in okd:
+                specs.setdefault(ths[i][0], set()).add((ths[i][1], ths[i][2]))
+            for name, sp in specs.items():
+                if len(sp) > 1:
+                    return "P", ("registrants of %r with different type / label-name lists %s were all given the metric: the label "
+                                 "schema is positional, distinct label tuples now share series: %s" % (name, sorted(sp), o))
     for o in bad:
         m = obs_monitor(cap, o)
         if m:
